@@ -202,23 +202,25 @@ type request struct {
 }
 
 type state struct {
-	node     *model.Proxy
-	gwNames  sets.String
-	services map[host.Name]*model.Service
-	cfg      config.Config
-	vs       *networking.VirtualService
-	cur      *networking.HTTPRoute
-	port     int
-	routes   []*route.Route
-	built    bool
-	vh       vhState
-	mesh     meshState
-	gw       gwState
-	isTLS    bool // opts.IsTLS of the route translation (gateway server with a TLS block)
+	node       *model.Proxy
+	gwNames    sets.String
+	services   map[host.Name]*model.Service
+	servicesNs map[string]map[string]*model.Service // gateway stream: hostname -> namespace -> service
+	cfg        config.Config
+	vs         *networking.VirtualService
+	cur        *networking.HTTPRoute
+	port       int
+	routes     []*route.Route
+	built      bool
+	vh         vhState
+	mesh       meshState
+	gw         gwState
+	isTLS      bool // opts.IsTLS of the route translation (gateway server with a TLS block)
 	// oracle-only switch: evaluate the spec with the deviation of finding F-C12-1 (classification)
 	f1Variant bool
 	// oracle-only switch: F-C12-6 deviation (classification)
 	indexVariant bool
+	aliasVariant bool // classification only (F-C12-9)
 }
 
 func newState() *state {
@@ -231,6 +233,7 @@ func (s *state) reset() {
 	s.node = &model.Proxy{Type: model.SidecarProxy, Metadata: &model.NodeMetadata{}, Labels: nil}
 	s.gwNames = sets.New(constants.IstioMeshGateway)
 	s.services = map[host.Name]*model.Service{}
+	s.servicesNs = map[string]map[string]*model.Service{}
 	s.vs = &networking.VirtualService{}
 	s.cfg = config.Config{Meta: config.Meta{GroupVersionKind: gvk.VirtualService, Name: "vs", Namespace: "default"}, Spec: s.vs}
 	s.cur = nil
@@ -324,6 +327,9 @@ func (s *state) apply(f []string) bool {
 			dr := &networking.HTTPDirectResponse{Status: uint32(atoi(f[3]))}
 			if f[4] != "-" {
 				dr.Body = &networking.HTTPBody{Specifier: &networking.HTTPBody_String_{String_: wire.Dec(f[4])}}
+				if len(f) > 5 && f[5] == "bytes" {
+					dr.Body = &networking.HTTPBody{Specifier: &networking.HTTPBody_Bytes{Bytes: []byte(wire.Dec(f[4]))}}
+				}
 			}
 			r.DirectResponse = dr
 		}
